@@ -59,7 +59,13 @@ func (h *apiHistory) describe() *apiHistory {
 		h.Templates = append(h.Templates, append(coreStr(t.Code), fmt.Sprintf("start=%d", t.Start)))
 	}
 	h.Calls = nil
-	for _, c := range h.calls {
+	for i, c := range h.calls {
+		if len(h.calls) > 200 && i >= 60 && i < len(h.calls)-60 {
+			if i == 60 {
+				h.Calls = append(h.Calls, fmt.Sprintf("... %d calls (re-generate with the case index) ...", len(h.calls)-120))
+			}
+			continue
+		}
 		h.Calls = append(h.Calls, c.String())
 	}
 	return h
@@ -379,11 +385,15 @@ func (c *Ctx) runC13Case(idx int64, depth int, nRandom int64) {
 		h.templates = append(h.templates, t)
 	}
 	n := r.Range(3, 40)
+	marathon := idx%1201 == 1200
+	if marathon {
+		n = r.Range(1500, 3000) // a long life of one simulator: hundreds of battles and Resets
+	}
 	count := 0
 	offs := []int{0, m - 1, m, 2*m + 3, 1, 2}
 	// a private model steers the generator (half of the histories): while the battle is live it is mostly
 	// stepped, once it is decided the generator prefers Reset, re-spawning dead warriors and adding new ones
-	steer := r.Chance(1, 2)
+	steer := r.Chance(1, 2) || marathon
 	gm := mars.NewBattle(h.M, h.P, h.C, h.M, h.M)
 	for k := 0; k < n; k++ {
 		var call apiCall
@@ -451,6 +461,9 @@ func (c *Ctx) runC13Case(idx int64, depth int, nRandom int64) {
 	}
 	if steer {
 		c.Inc("steered_histories")
+	}
+	if marathon {
+		c.Inc("marathon_histories")
 	}
 	c.Inc("random_histories")
 	if !runHistory(c, h) {
